@@ -405,6 +405,9 @@ def run(ctx):
     tdocs = [d for d in docs if len(d) < 400][: (250 if ctx.quick() else 2500)]
     tcfgs = [c for c in cfgs if c["name"] in ("core", "core-hardwrap", "all-speedup", "all-fenced", "all-rst", "ast-all", "rst-core", "markdown-core")]
     trace_correspondence(ctx, tdocs, tcfgs)
+    # the progress theorems (C01Progress*) are about the concrete Lean parser model: its full-tree correspondence on this run's documents (pumps included) is their tie
+    common.model_tie(ctx, [d for d in docs if len(d) <= 300], "core", "doc", limit=(500 if ctx.quick() else 5000))
+    common.model_tie(ctx, [d for d in docs if len(d) <= 300][::2], "all-speedup", "doc", limit=(300 if ctx.quick() else 3000))
     n, n_ok = oracle(ctx, docs, cfgs)
     n += api_oracle(ctx)
     n += include_oracle(ctx)
